@@ -212,6 +212,20 @@ Proof.
   - unfold wf_ht in Hwf. cbn [ht_root ht_codes] in *. destruct tb; [reflexivity|discriminate].
 Qed.
 
+(* the statement for the objects that exist: a tree / table pair that agree (every HuffmanTree) *)
+Theorem tree_serialized_decodes_proof : forall hm ht d b,
+  (forall t, Permutation (hm t) t) -> wf_ht ht = true -> ser_ok (ht_codes ht) = true ->
+  huff_encode ht d = Some b ->
+  exists ht', ht_deserialize hm (ht_serialize (ht_codes ht)) = Some ht' /\ huff_decode ht' b (length d) = Some d.
+Proof.
+  intros hm ht d b Hhm Hwf Hok Henc.
+  assert (Hnd : nodup_keys (ht_codes ht) = true).
+  { unfold ser_ok in Hok. apply andb_true_iff in Hok. destruct Hok as [Hok _].
+    apply andb_true_iff in Hok. now destruct Hok. }
+  destruct (ht_serialized_decodes_proof hm ht d b Hhm Hok (wf_prefix_free ht Hwf Hnd) Henc) as [ht' [H1 [_ [_ H2]]]].
+  now exists ht'.
+Qed.
+
 Example ex_ser : ht_serialize (ht_codes ex_ht) = [3; 0; 97; 1; 0; 98; 2; 1; 99; 2; 3].
 Proof. reflexivity. Qed.
 Example ex_ser_ok : ser_ok (ht_codes ex_ht) = true /\ prefix_free (ht_codes ex_ht) = true /\
